@@ -203,6 +203,9 @@ class H2Protocol:
                 await self._handle_events(events)
         elif isinstance(event, Closed):
             self.closed = True
+            # Nothing more can be sent, release any sends waiting on buffers
+            for buffer in list(self.stream_buffers.values()):
+                await buffer.close()
             stream_ids = list(self.streams.keys())
             for stream_id in stream_ids:
                 await self._close_stream(stream_id)
@@ -309,6 +312,9 @@ class H2Protocol:
                     # nothing to do already closed.
                     pass
             elif isinstance(event, h2.events.StreamReset):
+                if event.stream_id in self.stream_buffers:
+                    # Release any send waiting to put data on this stream
+                    await self.stream_buffers[event.stream_id].close()
                 await self._close_stream(event.stream_id)
                 await self._window_updated(event.stream_id)
             elif isinstance(event, h2.events.WindowUpdated):
